@@ -325,3 +325,51 @@ def loop_has_fixed_deadline(func_qual, ordinal=0, clock=('time.time', 'time.mono
             if now_ok and isinstance(right, ast.Name):
                 return False, 'line %d: the deadline %s is re-assigned inside the loop' % (s.lineno, right.id)
     return False, 'no `if <clock value> > <fixed deadline>: break` at the top level of the loop at line %d' % lp.lineno
+
+
+def always_truthy(cls_qual):
+    """instances of the class are true in a boolean context whatever their state: neither the class nor a repository base class defines
+    __bool__, __len__ or __nonzero__ (python's rule for truth testing); external bases other than object are not looked into"""
+    from .resolver import Repo, ClassInfo
+    c = Repo.get().cls(cls_qual)
+    if c is None:
+        return False, 'no such class'
+    for k in c.mro():
+        if not isinstance(k, ClassInfo):
+            if getattr(k, 'qual', 'object') not in ('object', 'builtins.object'):
+                return False, 'external base %r not inspected' % (k,)
+            continue
+        for n in k.node.body:
+            if isinstance(n, (ast.FunctionDef, ast.AsyncFunctionDef)) and n.name in ('__bool__', '__len__', '__nonzero__'):
+                return False, '%s defines %s: an instance can be false' % (k.qualname, n.name)
+            if isinstance(n, ast.Assign) and any(isinstance(t, ast.Name) and t.id in ('__bool__', '__len__', '__nonzero__') for t in n.targets):
+                return False, '%s assigns %s' % (k.qualname, n.targets[0].id)
+    return True, 'no __bool__/__len__ in %s' % ', '.join(getattr(k, 'qualname', 'object') for k in c.mro())
+
+
+def keeps_argument(func_qual, param, attr, arg_cls_qual):
+    """the function stores the object it is given as `param` in self.<attr>: the (single) assignment to self.<attr> has the value `param`,
+    `param if param is not None else ...`, or `param or ...` - the last keeps the caller's object only if instances of its class are
+    always truthy.  -> (True | False | None, detail); None: the assignment has another shape (undecided)"""
+    _, _, fn = _func(func_qual)
+    if fn is None:
+        return None, 'no such function'
+    hits = []
+    for n in ast.walk(fn):
+        if isinstance(n, ast.Assign):
+            for t in n.targets:
+                if isinstance(t, ast.Attribute) and isinstance(t.value, ast.Name) and t.value.id == 'self' and t.attr == attr:
+                    hits.append(n)
+    if len(hits) != 1:
+        return None, '%d assignments to self.%s' % (len(hits), attr)
+    v = hits[0].value
+    is_param = lambda e: isinstance(e, ast.Name) and e.id == param
+    if is_param(v):
+        return True, 'self.%s = %s' % (attr, param)
+    if isinstance(v, ast.IfExp) and is_param(v.body) and isinstance(v.test, ast.Compare) and is_param(v.test.left) and len(v.test.ops) == 1 \
+            and isinstance(v.test.ops[0], ast.IsNot) and isinstance(v.test.comparators[0], ast.Constant) and v.test.comparators[0].value is None:
+        return True, 'self.%s = %s if %s is not None else ...' % (attr, param, param)
+    if isinstance(v, ast.BoolOp) and isinstance(v.op, ast.Or) and is_param(v.values[0]):
+        ok, why = always_truthy(arg_cls_qual)
+        return ok, 'self.%s = %s or ...; %s' % (attr, param, why)
+    return None, 'self.%s is assigned %s' % (attr, ast.unparse(v))
